@@ -22,6 +22,29 @@ type Case struct {
 	// oracle (which works on the unscaled case) looks at it
 	ScaleExp  int  `json:"scale_exp,omitempty"`
 	HoleFirst bool `json:"hole_first,omitempty"` // some polygon lists its rings in an order other than shell first
+	// EmptyP: the polygonal argument is a value without any area (P is not used): NewBounds (geom.NewBounds()),
+	// InvertedBounds (Max < Min, laid over the line), Polygon{}, Polygon(nil), Polygon{{}}, MultiPolygon{}, MultiPolygon{{}}
+	EmptyP string `json:"empty_p,omitempty"`
+}
+
+var emptyKinds = []string{"NewBounds", "NewBounds", "InvertedBounds", "InvertedBounds", "Polygon{}", "Polygon(nil)", "Polygon{{}}", "MultiPolygon{}", "MultiPolygon{{}}"}
+
+func emptyGeom(kind string, x0, y0, x1, y1 float64) geom.Polygonal {
+	switch kind {
+	case "NewBounds":
+		return geom.NewBounds()
+	case "InvertedBounds":
+		return &geom.Bounds{Min: geom.Point{X: x1, Y: y1}, Max: geom.Point{X: x0, Y: y0}}
+	case "Polygon{}":
+		return geom.Polygon{}
+	case "Polygon(nil)":
+		return geom.Polygon(nil)
+	case "Polygon{{}}":
+		return geom.Polygon{{}}
+	case "MultiPolygon{}":
+		return geom.MultiPolygon{}
+	}
+	return geom.MultiPolygon{{}}
 }
 
 func gen(t *rapid.T) Case {
@@ -137,6 +160,12 @@ func gen(t *rapid.T) Case {
 			c.Lines = append(c.Lines, []vkit.P2{last, first})
 		}
 		c.AsMulti = len(c.Lines) > 1 || c.AsMulti
+	}
+	if rapid.IntRange(0, 19).Draw(t, "emptyp") == 7 {
+		// a polygonal argument without any area: nothing of the line is inside it
+		c.EmptyP = rapid.SampledFrom(emptyKinds).Draw(t, "emptykind")
+		c.P = vkit.GJ{T: "Polygon"}
+		c.HoleFirst = false
 	}
 	if rapid.IntRange(0, 2).Draw(t, "scaled") == 1 {
 		c.ScaleExp = rapid.OneOf(rapid.IntRange(-11, 40), rapid.IntRange(-11, 40), rapid.IntRange(-11, 40), rapid.IntRange(-60, -11), rapid.IntRange(-200, 200)).Draw(t, "scale_exp")
@@ -367,6 +396,16 @@ func run(c Case) (v vkit.Verdict) {
 	}
 	sgP, sameP := vkit.SharedGeom(PS)
 	P := sgP.(geom.Polygonal)
+	if c.EmptyP != "" {
+		x0, y0, x1, y1 := math.Inf(1), math.Inf(1), math.Inf(-1), math.Inf(-1)
+		for _, l := range c.Lines {
+			a0, b0, a1, b1 := bb(l)
+			x0, y0, x1, y1 = math.Min(x0, a0), math.Min(y0, b0), math.Max(x1, a1), math.Max(y1, b1)
+		}
+		P = emptyGeom(c.EmptyP, x0*sc, y0*sc, x1*sc, y1*sc)
+		v.Class("polygonal_without_area_" + c.EmptyP)
+		v.NonTrivial = true
+	}
 	defer func() {
 		if m := sameP(); m != "" && !v.Bad {
 			v = v.Fail("the call changed the geometry it was given (point lists are sub-slices of one array with spare capacity): %s", m)
@@ -491,7 +530,7 @@ func nearVerticalEdge(c Case) bool {
 func TestProp(t *testing.T) {
 	vkit.Main(t, vkit.Spec[Case]{
 		ID: "C14",
-		Rule: "rapid: in 1 case of 3 line and polygon are handed to Clip multiplied exactly by 2^k (the result is divided by 2^k again; the oracle works at unit scale); simple open line strings (self-avoiding walks, hooks, spirals, zig-zags, x-monotone lines; 2-40 vertices, 1 in 30 with 260-700; 1 case in 40 is an x-monotone line of 2^m+-1 (m=4..13) segments over P that leaves P's bounding box for good at that vertex) and multi-line strings of 1-3 members (pieces of one simple line, with gaps between them or - a third of them - chained at shared end vertices, half of the chains closed into a loop by one more member), " +
+		Rule: "rapid: in 1 case of 20 the polygonal argument is a value without any area (geom.NewBounds(), a *Bounds with Max < Min laid over the line, Polygon{}, Polygon(nil), Polygon{{}}, MultiPolygon{}, MultiPolygon{{}}; the result has to be empty); in 1 case of 3 line and polygon are handed to Clip multiplied exactly by 2^k (the result is divided by 2^k again; the oracle works at unit scale); simple open line strings (self-avoiding walks, hooks, spirals, zig-zags, x-monotone lines; 2-40 vertices, 1 in 30 with 260-700; 1 case in 40 is an x-monotone line of 2^m+-1 (m=4..13) segments over P that leaves P's bounding box for good at that vertex) and multi-line strings of 1-3 members (pieces of one simple line, with gaps between them or - a third of them - chained at shared end vertices, half of the chains closed into a loop by one more member), " +
 			"scaled/placed relative to a valid polygonal P (star polygon or (1 in 3) non-star comb/snake band, 0-3 holes (a quarter with the rings in a drawn order, e.g. a hole first), multi-polygon of 1-3 members, box): across, inside, through a hole, outside near, " +
 			"outside far. Cases where the multi-line is not simple (own O(n^2) test, margin 1e-7*scale) or a line vertex / polygon vertex is within that margin of the other " +
 			"geometry are skipped and counted. Oracle: every line segment is cut at its intersections with every polygon edge and the pieces whose midpoint is inside P " +
